@@ -78,7 +78,7 @@ def _history_shard(items, K):
     A = core.Worker()
     viols = []
     obs = {"programs": 0, "calls": 0, "fresh_processes": 0, "err_programs": 0, "ok_programs": 0, "panic_programs": 0,
-           "transitions": {"after_err": 0, "after_panic": 0, "after_ok": 0}, "nontrivial": 0}
+           "history_transitions": {"after_err": 0, "after_panic": 0, "after_ok": 0}, "nontrivial": 0}
     seen = set()
     for idx, (src, target) in enumerate(items):
         base = fresh_outcome(src, target)
@@ -94,12 +94,12 @@ def _history_shard(items, K):
         for k in range(K):
             if k % 3 == 1:
                 A.call({"op": "outcome", "src": NOISE_ERR, "target": target})
-                obs["transitions"]["after_err"] += 1
+                obs["history_transitions"]["after_err"] += 1
             elif k % 3 == 2:
                 A.call({"op": "outcome", "src": NOISE_PANIC, "target": target})
-                obs["transitions"]["after_panic"] += 1
+                obs["history_transitions"]["after_panic"] += 1
             else:
-                obs["transitions"]["after_ok"] += 1
+                obs["history_transitions"]["after_ok"] += 1
             r = A.call({"op": "outcome", "src": src, "target": target, "rq": True, "display": "plain"})
             obs["calls"] += 1
             if "outcome" in r:
